@@ -233,15 +233,27 @@ func c17Norm(in *c17In) {
 // contract: TLC decides admissibility of every case.
 func c17Random(rng randSrc, nk, n, maxRD, maxRK, nsfx int) *c17In {
 	in := &c17In{}
-	kinds := []int{1, 1, 1, 0, 0, 2, 2, 7, 18, 23}
+	// The shape of a case is drawn first (kind mix, how many user keys share the
+	// seqnums, how dense the snapshots are), then its content: deep stacks of one
+	// key inside one snapshot stripe, in particular the last one where elision and
+	// seqnum zeroing apply, are as likely as wide, finely striped inputs.
+	kindMixes := [][]int{
+		{1, 1, 1, 0, 0, 2, 2, 7, 18, 23},
+		{1, 1, 0, 7, 7, 7, 18, 18, 18, 23}, // what earlier compactions leave behind: SETWITHDEL, SINGLEDEL
+		{1, 1, 18, 0, 23, 23, 23, 7, 2},    // DELSIZED (no size / exact / wrong) over every kind
+	}
+	kinds := kindMixes[rng.Intn(len(kindMixes))]
+	nkUsed := 1 + rng.Intn(nk)
+	k0 := rng.Intn(nk - nkUsed + 1)
+	snapDens := []int{0, 10, 35, 35}[rng.Intn(4)]
 	type pt struct{ k, s, t, z int }
 	var ps []pt
-	dens := 30 + rng.Intn(60)
+	dens := 30 + rng.Intn(70)
 	for s := 1; s <= n; s++ {
 		if rng.Intn(100) >= dens {
 			continue
 		}
-		p := pt{k: rng.Intn(nk), s: s, t: kinds[rng.Intn(len(kinds))]}
+		p := pt{k: k0 + rng.Intn(nkUsed), s: s, t: kinds[rng.Intn(len(kinds))]}
 		if p.t == 23 {
 			p.z = rng.Intn(3)
 		}
@@ -286,7 +298,7 @@ func c17Random(rng randSrc, nk, n, maxRD, maxRK, nsfx int) *c17In {
 		in.Rks = append(in.Rks, c17Rk{A: a, B: b, Ks: []c17RkKey{k}})
 	}
 	for s := 1; s <= n+1; s++ {
-		if rng.Intn(100) < 35 {
+		if rng.Intn(100) < snapDens {
 			in.Snaps = append(in.Snaps, s)
 		}
 	}
